@@ -2,7 +2,31 @@ package disk
 
 import "time"
 
-var vrfEntries = map[string]func(){"VrfC15Disk": VrfC15Disk}
+var vrfEntries = map[string]func(){"VrfC15Disk": VrfC15Disk, "VrfC15DiskEnv": VrfC15DiskEnv}
+
+// VrfC15DiskEnv: metric TTL and metric type supplied through the environment.
+func VrfC15DiskEnv() {
+	cfg := &Config{MetricTTL: time.Duration(vrf_nondet_int64("metric_ttl")), MetricType: MetricType(vrf_nondet_int("metric_type"))}
+	vrf_assume(cfg.Validate() == nil)
+	before := *cfg
+	setT, valT := vrf_nondet_bool("env_set_MetricTTL"), time.Duration(vrf_nondet_int64("env_MetricTTL"))
+	setY, valY := vrf_nondet_bool("env_set_MetricType"), vrf_nondet_string("env_MetricType")
+	vrf_env(envConfigKey, "MetricTTL", setT, valT.String())
+	vrf_env(envConfigKey, "MetricType", setY, valY)
+	err := cfg.ApplyEnvVars()
+	wantTTL := time.Duration(vrf_ite_int(setT, int(valT), int(before.MetricTTL)))
+	known := vrf_or(valY == "reposize", valY == "freespace")
+	wantType := MetricType(vrf_ite_int(setY, vrf_ite_int(valY == "reposize", int(MetricRepoSize), int(MetricFreeSpace)), int(before.MetricType)))
+	acceptable := vrf_and(vrf_or(!setY, known), wantTTL > 0)
+	if err == nil {
+		vrf_assert(acceptable, "C15.disk.env-invalid-refused")
+		vrf_assert(vrf_and(cfg.MetricTTL == wantTTL, cfg.MetricType == wantType), "C15.disk.env-in-effect")
+		vrf_assert(cfg.Validate() == nil, "C15.disk.env-accepted-implies-valid")
+	} else {
+		vrf_assert(!acceptable, "C15.disk.env-valid-accepted")
+	}
+	vrf_reach("C15.disk.env-end")
+}
 
 func VrfC15Disk() {
 	d := &Config{}
